@@ -976,6 +976,33 @@ func run(c *mon.Ctx) {
 			}
 		})
 	}
+	// ---- streams that end at every byte offset, behind 0..3 bytes of garbage, with every kind of first header
+	c.Exhaustive("Sync / IsSynced: 4 adaptation_field_control x 3 leading-garbage lengths x every cut 0..400 of a 3-packet stream x 3 reader buffer sizes", 4*3*401*3)
+	c.StreamSeedless("sync-truncations", 12, func(k int, r *gen.Rand) {
+		curMut = "stream-cut-at-every-offset"
+		afc, lead := k%4, k/4
+		var st []byte
+		for g := 0; g < lead; g++ {
+			st = append(st, r.PickByte([]byte{0x00, 0xff, 0x47, 0x48}))
+		}
+		for n := 0; n < 3; n++ {
+			var p [188]byte
+			r.Fill(p[:])
+			p[0], p[1], p[2], p[3] = 0x47, byte(r.Intn(32)), byte(16+r.Intn(200)), byte(afc)<<4|byte(r.Intn(16))
+			if afc&2 != 0 {
+				p[4] = byte(r.PickInt([]int{0, 1, 7, 183, 183, 184, 255, r.Intn(256)}))
+			}
+			st = append(st, p[:]...)
+		}
+		for cut := 0; cut <= len(st) && cut <= 400; cut++ {
+			b := st[:cut:cut]
+			for _, sz := range []int{16, 188, 4096} {
+				sz := sz
+				call("packet.Sync", b, false, func() { packet.Sync(bufio.NewReaderSize(bytes.NewReader(b), sz)) })
+				call("packet.IsSynced", b, false, func() { packet.IsSynced(bufio.NewReaderSize(bytes.NewReader(b), sz)) })
+			}
+		}
+	})
 	// ---- PES headers: every relation between the two independent length fields and the buffer length
 	c.Exhaustive("PES_packet_length 0..47 x PES_header_data_length 0..31 x PTS_DTS_flags 4 x 6 buffer lengths x 3 stream ids", 48*32*4*6*3)
 	c.StreamSeedless("pes-lengths", 48, func(L int, r *gen.Rand) {
